@@ -51,6 +51,10 @@ def check(run):
         b4 = run.borrow("C04", why="the engine verdict is the precedence formula over the per-list hits")
         run.guard("C01.via.C04.2.precedence", cfg, lambda: _C04.rule_precedence(b4, F, cfg))
         run.guard("C01.via.C04.1.routing", cfg, lambda: _C04.rule_routing(b4, F, cfg))
+        from . import C03 as _C03
+        b3 = run.borrow("C03", only=r"websocket-scheme|initiator-required",
+                        why="a rule indexed under `https` / its domain hash must not match requests that lack that token")
+        run.guard("C01.via.C03.3.check_options-table", cfg, lambda: _C03.rule_check_options(b3, F, cfg))
 
 
 def rule_store(run, F, cfg):
